@@ -554,6 +554,12 @@ pub fn leak_census(report: &mut Report, rounds: usize) -> Result<(), Fail> {
         }
         wtxn.commit().map_err(|e| Fail::Infra(format!("{e}")))?;
     }
+    // two files that are not arroy's live in the same temp directory (one named the way the `tempfile` crate names
+    // everybody's files): whatever a build does - succeed, be cancelled, be aborted - they are still there afterwards
+    let foreign = [(tmp.join(".tmpQ7x9Za"), b"somebody else's temp file".to_vec()), (tmp.join("neighbour.bin"), vec![7u8; 300])];
+    for (path, content) in &foreign {
+        std::fs::write(path, content).map_err(|e| Fail::Infra(format!("{e}")))?;
+    }
     // warm up once (lazy statics, pools)
     let run = |w: &Writer<Euclidean>, cancel_at: Option<u64>, threads: usize| -> Result<(), Fail> {
         let mut wtxn = tenv.env.write_txn().map_err(|e| Fail::Infra(format!("{e}")))?;
@@ -629,15 +635,72 @@ pub fn leak_census(report: &mut Report, rounds: usize) -> Result<(), Fail> {
             report.acc.evaluations += 2;
         }
     }
+    // At the moment `build` returns - inside the caller's own pool, before anything queued on that pool can run -
+    // no temp file of the build is mapped any more (an unlinked file that is still mapped keeps its blocks).
+    // (on an index that is built and has pending insertions: the builds below are incremental ones, which stage the
+    // nodes of every tree they rewrite in temp files)
+    {
+        let mut wtxn = tenv.env.write_txn().map_err(|e| Fail::Infra(format!("{e}")))?;
+        let b = BuildOpts { ix: 0, n_trees: Some(3), split_after: None, avail_mem: None, rng_seed: 3, threads: 1, cancel_at: None, twice: false };
+        match do_build::<Euclidean>(&w, &mut wtxn, &b, 10_000_000) {
+            BuildOutcome::Ok { .. } => {}
+            _ => return violation("leak:build-error", "census base build failed"),
+        }
+        for i in 1000..1080u32 {
+            w.add_item(&mut wtxn, i, &[(i % 17) as f32, (i * 3 % 11) as f32, (i % 7) as f32]).map_err(|e| Fail::Infra(format!("{e:?}")))?;
+        }
+        wtxn.commit().map_err(|e| Fail::Infra(format!("{e}")))?;
+    }
+    for cancel_at in [None, Some(40u64), Some(400)] {
+        let tmp_str = tmp.to_string_lossy().to_string();
+        let mut wtxn = tenv.env.write_txn().map_err(|e| Fail::Infra(format!("{e}")))?;
+        let polls = std::sync::atomic::AtomicU64::new(0);
+        let (res, mapped) = crate::engine::in_pool(1, || {
+            use rand::SeedableRng;
+            let mut rng = rand::rngs::StdRng::seed_from_u64(3);
+            let mut builder = w.builder(&mut rng);
+            builder.n_trees(3);
+            builder.cancel(|| cancel_at.is_some_and(|n| polls.fetch_add(1, std::sync::atomic::Ordering::Relaxed) >= n));
+            let res = builder.build(&mut wtxn).map_err(|e| format!("{e:?}"));
+            let maps = std::fs::read_to_string("/proc/self/maps").unwrap_or_default();
+            let mapped: Vec<String> = maps.lines().filter(|l| l.contains(&tmp_str)).map(|l| l.to_string()).collect();
+            (res, mapped)
+        });
+        wtxn.abort();
+        match (&res, cancel_at) {
+            (Ok(()), _) => {}
+            (Err(e), Some(_)) if e == "BuildCancelled" => {}
+            (Err(e), _) => return violation("leak:build-error", format!("census build (cancel_at {cancel_at:?}) failed: {e}")),
+        }
+        if !mapped.is_empty() {
+            return violation(
+                "leak:tmpfile",
+                format!("when build (cancel_at {cancel_at:?}) returned {res:?}, {} temp file mapping(s) of the build were still in /proc/self/maps, e.g. {}", mapped.len(), mapped[0]),
+            );
+        }
+        report.acc.evaluations += 1;
+    }
     let fds1 = fd_count();
     report.acc.evaluations += (2 * rounds + rounds / 3) as u64;
     report.acc.extra.insert("fd_census".into(), json!({"before": fds0, "after": fds1, "builds": 2 * rounds + rounds / 3}));
     if fds1 > fds0 {
         return violation("leak:fd", format!("{} file descriptors before and {} after {} successful/cancelled/failed builds", fds0, fds1, 2 * rounds + rounds / 3));
     }
-    let left: Vec<_> = std::fs::read_dir(&tmp).map_err(|e| Fail::Infra(format!("{e}")))?.filter_map(|e| e.ok()).map(|e| e.file_name()).collect();
+    let mut left: Vec<_> = std::fs::read_dir(&tmp).map_err(|e| Fail::Infra(format!("{e}")))?.filter_map(|e| e.ok()).map(|e| e.path()).collect();
+    left.retain(|p| !foreign.iter().any(|(f, _)| f == p));
     if !left.is_empty() {
         return violation("leak:tmpfile", format!("temporary files left behind: {left:?}"));
+    }
+    for (path, content) in &foreign {
+        match std::fs::read(path) {
+            Ok(c) if c == *content => {}
+            other => {
+                return violation(
+                    "leak:foreign-file",
+                    format!("a file that was in the temp directory before the builds ({}) is gone or changed after them: {:?}", path.display(), other.map(|c| c.len())),
+                )
+            }
+        }
     }
     Ok(())
 }
